@@ -255,7 +255,7 @@ def run(rep: Any, tier: str, seed: int) -> None:
     rep.engine_name = f"symx (z3 {z3.get_version_string()})"
     rep.functions = FUNCTIONS
     ps = programs()
-    n = len(ps) if tier == "thorough" else min(len(ps), 18)
+    n = len(ps) if tier == "thorough" else min(len(ps), 12)
     rep.bounds = {"programs": f"{n} of the C01 grammar (every kind), all decision scripts and throw points of each",
                   "observation": "at the suspension whose index equals an unbounded symbolic k (one path per suspension; k = 0 is the not yet started target), 1 or 2 extractions, trickery or referents mode, "
                                  "the target extracted directly or through a custom stack item whose unwrap hook returns it"}
